@@ -66,6 +66,19 @@ func bounds(msg string, ents []tg.MessageEntityClass) (string, int) {
 	return "", -1
 }
 
+// truncatedLeads counts the UTF-8 lead bytes of the input whose sequence is cut short.
+func truncatedLeads(in []byte) int {
+	n := 0
+	for i := 0; i < len(in); {
+		r, sz := utf8.DecodeRune(in[i:])
+		if r == utf8.RuneError && sz == 1 && in[i] >= 0xC2 && in[i] <= 0xF4 {
+			n++
+		}
+		i += sz
+	}
+	return n
+}
+
 const splitRuneSig = "invalid-utf8|entity-past-end|builder-counts-split-rune-bytes"
 
 type c37Finding struct {
@@ -135,8 +148,16 @@ func checkInput(kind string, in []byte) c37Result {
 	// UTF-8, the builder counts the rune's bytes one unit each as they arrive in separate writes,
 	// and the assembled text is shorter than the builder believes. Such an entity is inside the
 	// believed length but past the real one.
+	// The label is given only when the over-count is explained by the input itself: the input
+	// contains S ≥ 1 truncated sequences (a lead byte 0xC2..0xF4 not followed by all its
+	// continuation bytes), and the builder's surplus is between 1 and 2·S units (a rune put
+	// together again from k separately counted bytes was counted k units instead of 1 or 2, i.e.
+	// at most 2 too many). Any other over-count, or an entity beyond even the builder's own
+	// length, keeps the general signature.
 	isSplitRune := func(bad string, e tg.MessageEntityClass) bool {
-		return pfx != "" && bad == "entity-past-end" && believed > u16len(rawMsg) && e.GetOffset()+e.GetLength() <= believed
+		over := believed - u16len(rawMsg)
+		return pfx != "" && bad == "entity-past-end" && over >= 1 && over <= 2*truncatedLeads(in) &&
+			e.GetOffset() >= 0 && e.GetLength() >= 0 && e.GetOffset()+e.GetLength() <= believed
 	}
 	rawBad := ""
 	if err == nil {
@@ -499,7 +520,7 @@ func runC37(c *mon.Ctx) {
 	}()
 
 	// (2)..(5) generated inputs
-	n := c.N(100000, 4000000)
+	n := c.N(100000, 12000000)
 	for i := 0; i < 4; i++ {
 		class, kind, in := genC37Input(c.RandN("c37", i), i)
 		c.Sample(class, map[string]any{"parser": kind, "input": fmt.Sprintf("%+q", clip(string(in), 300))})
